@@ -12,6 +12,7 @@ from .roles import CONFIG_ATTR, VIEWS, roles
 
 def run(ctx):
     c, p, res = ctx.c, ctx.p, ctx.r
+    shared.declared_entries_kept(ctx, "R12", "_parse_after", "'after' delays", "the delayed transition is never armed")
     # ---- R1 cancel before exit actions -------------------------------------------
     shared.cancel_before_exit_actions(ctx, "R1")
     # ---- R2 timers are armed only by _schedule_state_tasks, once per transition --
